@@ -61,10 +61,10 @@ Definition b2z (b : bool) : Z := if b then 1 else 0.
 (* ---------- the client API ---------- *)
 Inductive sop :=                       (* one critical section without user code *)
 | Add (n v : Z) | AddT (n v ty : Z) | AddType (n ty : Z) | RemName (n : Z) | Copy (a b : Z)
-| FindName (n : Z) (s : nat) | CheckType (n ty : Z) | GetObjects | Empty.
+| FindName (n : Z) (s : bool) | CheckType (n ty : Z) | GetObjects | Empty.
 Inductive pop :=                       (* one critical section calling the predicate "value == k" *)
-| RemPred (k : Z) | FindPred (k : Z) (s : nat) | FindPredT (k ty : Z) (s : nat).
-Inductive lop := Drop (s : nat) | ReadObj (s : nat).   (* client-side use of a returned shared_ptr *)
+| RemPred (k : Z) | FindPred (k : Z) (s : bool) | FindPredT (k ty : Z) (s : bool).
+Inductive lop := Drop (s : bool) | ReadObj (s : bool).   (* client-side use of a returned shared_ptr *)
 Inductive op := OS (o : sop) | OP (o : pop) | OL (o : lop).
 
 Definition opcode (o : op) : Z :=
@@ -74,8 +74,8 @@ Definition opcode (o : op) : Z :=
   | OP (FindPredT _ _ _) => 8 | OS (CheckType _ _) => 9 | OS GetObjects => 10 | OS Empty => 11
   | OL (Drop _) => 12 | OL (ReadObj _) => 13
   end.
-Definition NSLOT : nat := 2.
-Definition sl (z : Z) : nat := Z.to_nat (z mod 2).
+(* every client thread has two slots for returned pointers; the driver uses (s & 1) *)
+Definition sl (z : Z) : bool := Z.odd z.
 Definition decode_op (z : list Z) : option op :=
   match z with
   | [0; n; v] => Some (OS (Add n v))
@@ -179,11 +179,11 @@ Inductive pc :=
 | SLock (o : sop)                (* before lock_guard's lock() *)
 | PLock (o : pop)
 | Call (o : pop) (k : Z)         (* inside the section, parked in user_call, iterator at key k *)
-| Unlock (o : op) (r : Z)        (* body done, before lock_guard's unlock(); returns r *)
+| Unlock (o : op) (a : ptr) (r : Z)   (* body done (argument a), before lock_guard's unlock(); returns r *)
 | XUnlock (o : pop).             (* unwinding after a throwing predicate: unlock, then the exception leaves *)
 
 (* held: the shared_ptr argument on its way in (Add) or the result on its way out (Find) *)
-Record loc := Loc { prog : list op; at_ : pc; slots : list (option ptr); held : option ptr }.
+Record loc := Loc { prog : list op; at_ : pc; slots : option ptr * option ptr; held : option ptr }.
 Record entry := Entry { e_tid : nat; e_op : op; e_arg : ptr; e_ret : option Z }.
 (* log: ghost linearization log, appended at the unlock step *)
 Record glob := Glob { omap : omapT; tmap : tmapT; mtx : option nat; heap : list nat;
@@ -212,10 +212,13 @@ Definition dec_opt (h : list nat) (p : option ptr) : list nat * bool :=
 Definition alive (h : list nat) (p : ptr) : bool := negb (Nat.eqb (rc_of h (pid p)) O).
 
 Definition fault_evs (code : Z) (ok : bool) : list ev := if ok then [] else [E K_FAULT 0 code].
-Definition slot (l : loc) (s : nat) : option ptr := nth s (slots l) None.
+Definition getslot (s : bool) (sl : option ptr * option ptr) : option ptr := if s then snd sl else fst sl.
+Definition setslot (s : bool) (x : option ptr) (sl : option ptr * option ptr) : option ptr * option ptr :=
+  if s then (fst sl, x) else (x, snd sl).
+Definition slot (l : loc) (s : bool) : option ptr := getslot s (slots l).
 Definition null_ptr : ptr := (O, 0).
 Definition harg (l : loc) : ptr := match held l with Some p => p | None => null_ptr end.
-Definition dst_slot (o : op) : option nat :=
+Definition dst_slot (o : op) : option bool :=
   match o with
   | OS (FindName _ s) => Some s | OP (FindPred _ s) => Some s | OP (FindPredT _ _ s) => Some s
   | _ => None
@@ -232,6 +235,12 @@ Definition sop_rc (o : sop) (arg : ptr) (r : Z) (touched : option ptr) (h : list
   | _ => (h, true, None)
   end.
 
+(* the value of the object a method creates before it takes the lock (std::make_shared in the caller) *)
+Definition new_arg (o : sop) : option Z := match o with Add _ v => Some v | AddT _ v _ => Some v | _ => None end.
+Definition is_rem (o : pop) : bool := match o with RemPred _ => true | _ => false end.
+Definition set_hf (g : glob) (h : list nat) (ok : bool) : glob :=
+  Glob (omap g) (tmap g) (mtx g) h (calls g) (throws g) (faulted g || negb ok) (log g).
+
 Definition tstep_gen (unfixed : bool) (t c : nat) (g : glob) (l : loc) : option (glob * loc * list ev) :=
   match at_ l with
   | Idle =>
@@ -242,22 +251,22 @@ Definition tstep_gen (unfixed : bool) (t c : nat) (g : glob) (l : loc) : option 
       match o with
       | OL (Drop s) =>
         let '(h', ok) := dec_opt (heap g) (slot l s) in
-        Some (Glob (omap g) (tmap g) (mtx g) h' (calls g) (throws g) (faulted g || negb ok) (log g),
-              Loc rest Idle (upd (slots l) s None) (held l),
+        Some (set_hf g h' ok, Loc rest Idle (setslot s None (slots l)) (held l),
               [iv] ++ fault_evs F_UAF ok ++ [E K_RET 0 0])
       | OL (ReadObj s) =>
         match slot l s with
         | None => Some (g, Loc rest Idle (slots l) (held l), [iv; E K_RET 0 (-1)])
         | Some p =>
           let ok := alive (heap g) p in
-          Some (Glob (omap g) (tmap g) (mtx g) (heap g) (calls g) (throws g) (faulted g || negb ok) (log g),
-                Loc rest Idle (slots l) (held l),
+          Some (set_hf g (heap g) ok, Loc rest Idle (slots l) (held l),
                 [iv] ++ fault_evs F_UAF ok ++ [E K_RET 0 (pval p)])
         end
-      | OS (Add _ v as so) | OS (AddT _ v _ as so) =>   (* std::make_shared: a new cell with one owner *)
-        Some (Glob (omap g) (tmap g) (mtx g) (heap g ++ [1%nat]) (calls g) (throws g) (faulted g) (log g),
-              Loc rest (SLock so) (slots l) (Some (S (length (heap g)), v)), [iv])
-      | OS so => Some (g, Loc rest (SLock so) (slots l) (held l), [iv])
+      | OS so =>
+        match new_arg so with
+        | Some v =>     (* std::make_shared: a new cell with one owner, the argument *)
+          Some (set_hf g (heap g ++ [1%nat]) true, Loc rest (SLock so) (slots l) (Some (S (length (heap g)), v)), [iv])
+        | None => Some (g, Loc rest (SLock so) (slots l) (held l), [iv])
+        end
       | OP po => Some (g, Loc rest (PLock po) (slots l) (held l), [iv])
       end
     end
@@ -269,7 +278,7 @@ Definition tstep_gen (unfixed : bool) (t c : nat) (g : glob) (l : loc) : option 
       let '(om, tm, r, touched) := apply_sop o arg (omap g) (tmap g) in
       let '(h', ok, keep) := sop_rc o arg r touched (heap g) in
       Some (Glob om tm (Some t) h' (calls g) (throws g) (faulted g || negb ok) (log g),
-            Loc (prog l) (Unlock (OS o) r) (slots l) keep,
+            Loc (prog l) (Unlock (OS o) arg r) (slots l) keep,
             [E K_LOCK O_MTX 0] ++ fault_evs F_UAF ok)
     end
   | PLock o =>      (* lock; begin(); the first predicate call parks in user_call *)
@@ -277,14 +286,15 @@ Definition tstep_gen (unfixed : bool) (t c : nat) (g : glob) (l : loc) : option 
     | Some _ => None
     | None =>
       Some (Glob (omap g) (tmap g) (Some t) (heap g) (calls g) (throws g) (faulted g) (log g),
-            Loc (prog l) (match first_key (omap g) with Some k => Call o k | None => Unlock (OP o) 0 end) (slots l) (held l),
+            Loc (prog l) (match first_key (omap g) with Some k => Call o k | None => Unlock (OP o) null_ptr 0 end)
+                (slots l) (held l),
             [E K_LOCK O_MTX 0])
     end
   | Call o k =>
     match lookup k (omap g) with
     | None =>       (* the iterator's node is gone *)
       Some (Glob (omap g) (tmap g) (mtx g) (heap g) (calls g) (throws g) true (log g),
-            Loc (prog l) (Unlock (OP o) 0) (slots l) (held l), [E K_FAULT 0 F_ITER])
+            Loc (prog l) (Unlock (OP o) null_ptr 0) (slots l) (held l), [E K_FAULT 0 F_ITER])
     | Some p =>
       let cev := E K_CALL 0 (Z.of_nat (pid p)) in
       let n := calls g in
@@ -294,42 +304,41 @@ Definition tstep_gen (unfixed : bool) (t c : nat) (g : glob) (l : loc) : option 
       else
         let live := alive (heap g) p in         (* the predicate reads the object *)
         if ptest o (tmap g) k p then
-          match o with
-          | RemPred _ =>
+          if is_rem o then
             let '(h', ok) := rc_dec (heap g) (pid p) in
-            (* unfixed: objectMap.erase(obj) first, then obj->first is read through the erased node *)
+            (* fixed: the key is read (typeMap erased) before objectMap.erase(obj);
+               unfixed: objectMap.erase(obj) first, then obj->first is read through the erased node *)
             let om_at_deref := if unfixed then del k (omap g) else omap g in
             let iter_ok := match lookup k om_at_deref with Some _ => true | None => false end in
             Some (Glob (del k (omap g)) (del k (tmap g)) (mtx g) h' (n + 1) (throws g)
-                       (faulted g || negb live || negb ok || negb iter_ok) (log g),
-                  Loc (prog l) (Unlock (OP o) 1) (slots l) (held l),
-                  [cev] ++ fault_evs F_UAF live ++ fault_evs F_UAF ok ++ fault_evs F_ITER iter_ok)
-          | _ =>
+                       (faulted g || negb (live && ok && iter_ok)) (log g),
+                  Loc (prog l) (Unlock (OP o) null_ptr 1) (slots l) (held l),
+                  [cev] ++ fault_evs F_UAF (live && ok) ++ fault_evs F_ITER iter_ok)
+          else
             let '(h', ok) := rc_inc (heap g) (pid p) in
-            Some (Glob (omap g) (tmap g) (mtx g) h' (n + 1) (throws g) (faulted g || negb live || negb ok) (log g),
-                  Loc (prog l) (Unlock (OP o) (Z.of_nat (pid p))) (slots l) (Some p),
-                  [cev] ++ fault_evs F_UAF live ++ fault_evs F_UAF ok)
-          end
+            Some (Glob (omap g) (tmap g) (mtx g) h' (n + 1) (throws g) (faulted g || negb (live && ok)) (log g),
+                  Loc (prog l) (Unlock (OP o) null_ptr (Z.of_nat (pid p))) (slots l) (Some p),
+                  [cev] ++ fault_evs F_UAF (live && ok))
         else
           Some (Glob (omap g) (tmap g) (mtx g) (heap g) (n + 1) (throws g) (faulted g || negb live) (log g),
-                Loc (prog l) (match next_key k (omap g) with Some k' => Call o k' | None => Unlock (OP o) 0 end)
+                Loc (prog l) (match next_key k (omap g) with Some k' => Call o k' | None => Unlock (OP o) null_ptr 0 end)
                     (slots l) (held l),
                 [cev] ++ fault_evs F_UAF live)
     end
-  | Unlock o r =>   (* unlock; the result is handed to the client (a Find result goes into its slot) *)
-    let e := Entry t o (harg l) (Some r) in
+  | Unlock o a r =>   (* unlock; the result is handed to the client (a Find result goes into its slot) *)
+    let e := Entry t o a (Some r) in
     match dst_slot o with
     | Some s =>
       let '(h', ok) := dec_opt (heap g) (slot l s) in
       Some (Glob (omap g) (tmap g) None h' (calls g) (throws g) (faulted g || negb ok) (log g ++ [e]),
-            Loc (prog l) Idle (upd (slots l) s (held l)) None,
+            Loc (prog l) Idle (setslot s (held l) (slots l)) None,
             [E K_UNLOCK O_MTX 0] ++ fault_evs F_UAF ok ++ [E K_RET 0 r])
     | None =>
       Some (Glob (omap g) (tmap g) None (heap g) (calls g) (throws g) (faulted g) (log g ++ [e]),
             Loc (prog l) Idle (slots l) (held l), [E K_UNLOCK O_MTX 0; E K_RET 0 r])
     end
   | XUnlock o =>
-    Some (Glob (omap g) (tmap g) None (heap g) (calls g) (throws g) (faulted g) (log g ++ [Entry t (OP o) (harg l) None]),
+    Some (Glob (omap g) (tmap g) None (heap g) (calls g) (throws g) (faulted g) (log g ++ [Entry t (OP o) null_ptr None]),
           Loc (prog l) Idle (slots l) (held l), [E K_UNLOCK O_MTX 0; E K_CATCH 0 0])
   end.
 
@@ -338,7 +347,7 @@ Definition tstep := tstep_gen false.
 Definition fin (l : loc) : bool := match at_ l, prog l with Idle, [] => true | _, _ => false end.
 
 Definition init (thr_at : list Z) (progs : list (list op)) : sys glob loc :=
-  Sys (Glob [] [] None [] 0 thr_at false []) (map (fun p => Loc p Idle (repeat None NSLOT) None) progs).
+  Sys (Glob [] [] None [] 0 thr_at false []) (map (fun p => Loc p Idle (None, None) None) progs).
 
 (* ---------- entry point of the correspondence check ---------- *)
 Fixpoint decode_prog (p : list (list Z)) : list op :=
